@@ -1,6 +1,7 @@
 package main
 
 import (
+	"math"
 	"fmt"
 	"strconv"
 	"strings"
@@ -10,7 +11,8 @@ import (
 // over the byte variables / integer atoms, or raises Unsupported.
 
 type Atom struct {
-	kind int // 0 = FmtInt (strconv formatting of a 64-bit signed term in base), 1 = opaque text
+	kind int // 0 = FmtInt (strconv formatting of a 64-bit signed term in base), 1 = opaque text, 2 = FmtFloat (shortest
+	// round-trip formatting, strconv.FormatFloat(f, 'g', -1, 64), of the finite float64 whose bit pattern is t)
 	t    *Term
 	base int
 	id   int
@@ -282,6 +284,23 @@ func strEq(a, b Value) *Term {
 	}
 	// atoms involved
 	pa, pb := partsOf(a), partsOf(b)
+	if fa := singleFmtFloat(a); fa != nil {
+		if fb := singleFmtFloat(b); fb != nil {
+			// shortest round-trip formatting is injective on finite floats (+0 and -0 are spelt differently)
+			return mkEq(fa.t, fb.t)
+		}
+		if y, ok := b.(string); ok {
+			if f, err := strconv.ParseFloat(y, 64); err == nil && strconv.FormatFloat(f, 'g', -1, 64) == y {
+				return mkEq(fa.t, mkConst(math.Float64bits(f), 64))
+			}
+			return tFalse
+		}
+		if at := singleFmtInt(b); at != nil && at.base == 10 {
+			unsup("string equality between the text of a float and the text of an integer")
+		}
+	} else if singleFmtFloat(b) != nil {
+		return strEq(b, a)
+	}
 	if len(pa) == 1 && pa[0].atom != nil && pa[0].atom.kind == 0 {
 		at := pa[0].atom
 		if len(pb) == 1 && pb[0].atom != nil && pb[0].atom.kind == 0 && pb[0].atom.base == at.base {
@@ -430,6 +449,8 @@ func evalStr(v Value, m Model) string {
 			case p.atom != nil:
 				if p.atom.kind == 0 {
 					sb.WriteString(strconv.FormatInt(int64(evalTerm(p.atom.t, m)), p.atom.base))
+				} else if p.atom.kind == 2 {
+					sb.WriteString(strconv.FormatFloat(math.Float64frombits(evalTerm(p.atom.t, m)), 'g', -1, 64))
 				} else {
 					sb.WriteString("<" + p.atom.desc + ">")
 				}
@@ -447,6 +468,22 @@ func fmtIntStr(t *Term, base int) Value {
 		return strconv.FormatInt(int64(t.c), base)
 	}
 	return &SStr{parts: []SPart{{atom: &Atom{kind: 0, t: t, base: base}}}}
+}
+
+// fmtFloatStr is the text of the finite float64 with bit pattern bits.
+func fmtFloatStr(bits *Term) Value {
+	if bits.isConst() {
+		return strconv.FormatFloat(math.Float64frombits(bits.c), 'g', -1, 64)
+	}
+	return &SStr{parts: []SPart{{atom: &Atom{kind: 2, t: bits}}}}
+}
+
+// singleFmtFloat returns the atom if v is exactly one FmtFloat atom.
+func singleFmtFloat(v Value) *Atom {
+	if s, ok := v.(*SStr); ok && len(s.parts) == 1 && s.parts[0].atom != nil && s.parts[0].atom.kind == 2 {
+		return s.parts[0].atom
+	}
+	return nil
 }
 
 func opaqueStr(desc string) Value {
